@@ -3,5 +3,6 @@ SPECIFICATION Spec
 CONSTANTS
   SingleContexts = {"func", "method", "closure", "generic", "init", "pkgvar"}
   PairContexts = {}
+  CheckObs = FALSE
 INVARIANTS WellFormed Emit
 CHECK_DEADLOCK FALSE
